@@ -125,7 +125,23 @@ def _keyfile(f, root):
     return os.path.join(root, kf) if root else kf
 
 
+VLOG = []  # (reference path of the configuration, validator name) per invocation, reset per step
+
+
 def make_validator(name):
+    base = _make_validator(name)
+
+    def logged(cfg):
+        import cincoconfig
+
+        VLOG.append((cincoconfig.item_ref_path(cfg), name))
+        return base(cfg)
+
+    logged.__name__ = name
+    return logged
+
+
+def _make_validator(name):
     def always_ok(cfg):
         return None
 
@@ -145,7 +161,23 @@ def make_validator(name):
         if "x" not in cfg or cfg.x is None:
             raise ValueError("x is needed")
 
-    return {"always_ok": always_ok, "always_fail": always_fail, "x_lt_y": x_lt_y, "needs_x": needs_x, "x_not_3": x_not_3}[name]
+    def needs_key(cfg):
+        if "key" not in cfg or cfg.key is None:
+            raise ValueError("key is needed")
+
+    def host_not_x(cfg):
+        if "host" in cfg and cfg.host == "x":
+            raise ValueError("host must not be x")
+
+    return {
+        "always_ok": always_ok,
+        "always_fail": always_fail,
+        "x_lt_y": x_lt_y,
+        "needs_x": needs_x,
+        "x_not_3": x_not_3,
+        "needs_key": needs_key,
+        "host_not_x": host_not_x,
+    }[name]
 
 
 # ----------------------------------------------------------------------------- projection
@@ -293,6 +325,7 @@ class World:
         n = ev.get("n")
         cfg = self.cfgs.get(n)
         before = {m: (nested_ids(cinco, c) if c is not None else {}) for m, c in self.cfgs.items()}
+        del VLOG[:]
         res = {"out": "ok", "errpath": None}
         try:
             if op in ("SetAttr", "SetItem"):
@@ -317,6 +350,10 @@ class World:
                 cinco.reset_value(cfg, ".".join(list(seq(ev["p"])) + [ev["k"]]))
             elif op == "Validate":
                 cfg.validate()
+            elif op == "ValidateCollect":
+                errors = cfg.validate(collect_errors=True)
+                if errors:
+                    res["out"] = "errors"
             elif op == "COp":
                 owner = self._walk(cfg, seq(ev["p"]))
                 target = getattr(owner, ev["k"])
@@ -339,6 +376,7 @@ class World:
                 if path in before[m] and before[m][path] != ident:
                     if not any(path[: len(q)] == q for q in repl_paths(repl, m)):
                         repl.append((m, path))
+        res["vlog"] = sorted([list(x) for x in set(VLOG)])
         res["repl"] = sorted([list(p) for m, p in repl if m == n])
         res["repl_other"] = sorted([[m] + list(p) for m, p in repl if m != n])
         return res
@@ -419,6 +457,8 @@ class Adapter:
         out["repl"] = r["repl"]
         if r["repl_other"]:
             out["repl"] = r["repl"] + [["<other>"] + p for p in r["repl_other"]]
+        if getattr(self, "focus", None) == "C11" and ev["op"] in ("Load", "Validate"):
+            out["vlog"] = r["vlog"]
         if getattr(self, "focus", None) == "C15" and r["out"] == "ValidationError" and (
             ev["op"] in ("SetAttr", "SetItem", "Ctor", "Load") or (ev["op"] == "COp" and ev["o"]["m"] in ("append", "extend", "iadd", "item_set"))
         ):
